@@ -650,7 +650,10 @@ impl<T: Cv> Pair<T> {
         if self.m.total > T::MAXU / 2 {
             edges.hit("state where total_weight reached");
         }
-        if !out.is_empty() || !first_visit(&self.key) {
+        // The key is built from the IMAGE; an empty-form image carries no table, so it says
+        // nothing about the in-memory counters: always query the live object there.
+        let seen_before = !first_visit(&self.key);
+        if !out.is_empty() || (seen_before && !empty_img) {
             dedup_keys(&mut out);
             return (out, img);
         }
